@@ -207,41 +207,65 @@ func c01r2(p *Prog, r *Reporter) {
 					}
 				}
 			}
-			for _, b := range fn.Blocks {
-				for _, ins := range b.Instrs {
-					st, ok := ins.(*ssa.Store)
-					if !ok {
-						continue
-					}
-					// (a) direct: w.entities[e.id] = entityIndex{arch, index}  or  w.entities[e.id].f = v
-					if cell, field, ok := entitiesIndexStore(st); ok && sameCell(cell, entCell) {
-						if field == "" {
-							// whole struct from a local literal: look at the literal's field stores
-							if ld, ok := st.Val.(*ssa.UnOp); ok {
-								if a, ok := ld.X.(*ssa.Alloc); ok {
-									for _, ref := range *a.Referrers() {
-										if fa, ok := ref.(*ssa.FieldAddr); ok {
-											for _, r2 := range *fa.Referrers() {
-												if s2, ok := r2.(*ssa.Store); ok {
-													checkVal(fieldName(fa.X.Type(), fa.Field), s2.Val)
+			scan := func(sfn *ssa.Function, entCell ssa.Value, tr func(ssa.Value) ssa.Value) {
+				for _, b := range sfn.Blocks {
+					for _, ins := range b.Instrs {
+						st, ok := ins.(*ssa.Store)
+						if !ok {
+							continue
+						}
+						// (a) direct: w.entities[e.id] = entityIndex{arch, index}  or  w.entities[e.id].f = v
+						if cell, field, ok := entitiesIndexStore(st); ok && sameCell(cell, entCell) {
+							if field == "" {
+								// whole struct from a local literal: look at the literal's field stores
+								if ld, ok := st.Val.(*ssa.UnOp); ok {
+									if a, ok := ld.X.(*ssa.Alloc); ok {
+										for _, ref := range *a.Referrers() {
+											if fa, ok := ref.(*ssa.FieldAddr); ok {
+												for _, r2 := range *fa.Referrers() {
+													if s2, ok := r2.(*ssa.Store); ok {
+														checkVal(fieldName(fa.X.Type(), fa.Field), tr(s2.Val))
+													}
 												}
 											}
 										}
 									}
 								}
+							} else {
+								checkVal(field, tr(st.Val))
 							}
-						} else {
-							checkVal(field, st.Val)
+							continue
 						}
+						// (b) through a pointer: index := &w.entities[e.id]; index.f = v
+						if fa, ok := st.Addr.(*ssa.FieldAddr); ok && typeName(fa.X.Type()) == "entityIndex" {
+							if ia, ok := fa.X.(*ssa.IndexAddr); ok {
+								if c := idOf(ia.Index); c != nil && sameCell(c, entCell) {
+									checkVal(fieldName(fa.X.Type(), fa.Field), tr(st.Val))
+								}
+							}
+						}
+					}
+				}
+			}
+			scan(fn, entCell, func(v ssa.Value) ssa.Value { return v })
+			if !found {
+				// the index entry is written by an unexported helper that receives the entity, the table and the row
+				for _, s2 := range callsIn(fn) {
+					g := s2.Common().StaticCallee()
+					if g == nil || !p.isArche(g) || g.Blocks == nil || g == fn || g.Object() == nil || g.Object().Exported() || len(g.Params) != len(s2.Common().Args) {
 						continue
 					}
-					// (b) through a pointer: index := &w.entities[e.id]; index.f = v
-					if fa, ok := st.Addr.(*ssa.FieldAddr); ok && typeName(fa.X.Type()) == "entityIndex" {
-						if ia, ok := fa.X.(*ssa.IndexAddr); ok {
-							if c := idOf(ia.Index); c != nil && sameCell(c, entCell) {
-								checkVal(fieldName(fa.X.Type(), fa.Field), st.Val)
-							}
+					for k, pr := range g.Params {
+						if !isEntityType(pr.Type()) || !sameCell(originOf(s2.Common().Args[k]), entCell) {
+							continue
 						}
+						args := s2.Common().Args
+						scan(g, originOf(pr), func(v ssa.Value) ssa.Value {
+							if q, ok := v.(*ssa.Parameter); ok && q.Parent() == g {
+								return args[paramIndex(q)]
+							}
+							return v
+						})
 					}
 				}
 			}
@@ -301,6 +325,29 @@ func c01r3(p *Prog, r *Reporter) {
 						// loop counters render as "·": compare the SSA values themselves
 						if t2 == strings.TrimSuffix(srcTable, ".archetypeAccess") && s2.Common().Args[1] == get.Common().Args[1] {
 							rowOK = true
+						}
+					}
+				}
+				if !rowOK {
+					// the removal lives in an unexported helper that receives the source table and the row
+					for _, s2 := range callsIn(fn) {
+						g := s2.Common().StaticCallee()
+						if g == nil || !p.isArche(g) || g.Blocks == nil || g.Object() == nil || g.Object().Exported() || len(g.Params) != len(s2.Common().Args) {
+							continue
+						}
+						for _, s3 := range callsIn(g) {
+							if !(isArchMethod(s3, "GetEntity") || isArchMethod(s3, "Remove")) || len(s3.Common().Args) < 2 {
+								continue
+							}
+							pt, ok1 := s3.Common().Args[0].(*ssa.Parameter)
+							pr, ok2 := s3.Common().Args[1].(*ssa.Parameter)
+							if !ok1 || !ok2 || pt.Parent() != g || pr.Parent() != g {
+								continue
+							}
+							t2 := strings.TrimSuffix(apath(s2.Common().Args[paramIndex(pt)]), ".archetypeAccess")
+							if t2 == strings.TrimSuffix(srcTable, ".archetypeAccess") && apath(s2.Common().Args[paramIndex(pr)]) == srcRow && srcRow != "·" {
+								rowOK = true
+							}
 						}
 					}
 				}
